@@ -115,6 +115,7 @@ bool FilePersister::initialise(const f8String& dbDir, const f8String& dbFname, b
 		}
 
 		IPrec iprec;
+		off_t recpos(0);
 		while (true)
 		{
 			const ssize_t blrd(read(_iod, static_cast<void *>(&iprec), sizeof(IPrec)));
@@ -129,7 +130,10 @@ bool FilePersister::initialise(const f8String& dbDir, const f8String& dbFname, b
 			if (iprec._seq == 0)
 			{
 				glout_info << iprec;
+				if (_control_offset < 0)
+					_control_offset = recpos;
 			}
+			recpos += sizeof(IPrec);
 
 			if (!_index.insert({iprec._seq, iprec._prec}).second)
 			{
@@ -237,12 +241,18 @@ bool FilePersister::put(const unsigned sender_seqnum, const unsigned target_seqn
 	else
 		itr->second = iprec._prec;
 
-	if (lseek(_iod, 0, SEEK_SET) < 0)
+	// the control record is rewritten where it lives; the first one goes behind whatever the index holds already
+	// (a message may have been stored before it)
+	const off_t where(lseek(_iod, _control_offset < 0 ? 0 : _control_offset, _control_offset < 0 ? SEEK_END : SEEK_SET));
+	if (where < 0)
 	{
-		glout_error << "Error: could not seek to 0 for seqnum persitence: " << _dbIname;
+		glout_error << "Error: could not seek for seqnum persitence: " << _dbIname;
 		return false;
 	}
-	return write (_iod, static_cast<void *>(&iprec), sizeof(IPrec)) == sizeof(IPrec);
+	if (write (_iod, static_cast<void *>(&iprec), sizeof(IPrec)) != sizeof(IPrec))
+		return false;
+	_control_offset = where;
+	return true;
 }
 
 //-------------------------------------------------------------------------------------------------
